@@ -973,6 +973,13 @@ static int write_char(void *context, cif_value_tp *char_value, int allow_text) {
 
     if (cif_value_get_text(char_value, &text) == CIF_OK) {
         struct cif_string_analysis_s analysis;
+
+        /* a carriage return cannot be presented: every CIF reader takes it for (part of) a line terminator */
+        if (u_strchr(text, UCHAR_CR) != NULL) {
+            free(text);
+            return CIF_DISALLOWED_VALUE;
+        }
+
         /* extra_space accounts for space consumed by preceding output that must not be separated from the current */
         /* int32_t extra_space = (IS_SEPARATE_VALUES(context) ? 0 : LAST_COLUMN(context)); */
 
